@@ -54,8 +54,15 @@ MODULES = {
 }
 REQUIRES = "From Verif Require Base.Sx Model.Stream Proofs.Stream Proofs.StreamTheorems Model.Proc Proofs.Proc Proofs.ProcTheorems Model.Pool Gen.PoolGen Model.PoolGlue Proofs.Pool Proofs.PoolLm Proofs.PoolStd Proofs.PoolTheorems Model.Batcher Proofs.Batcher Gen.BatcherGen Model.StreamFlow Proofs.StreamFlow Proofs.StreamFlowTheorems Model.Charged Proofs.Charged Model.Pipe Proofs.Pipe Proofs.StreamDrain Proofs.BatcherDrain Proofs.ProcDrain Proofs.PipeDrain Model.StreamOffsets Proofs.StreamOffsets Proofs.BatcherStop Model.PipeGlue Proofs.PipeGlue.\nFrom Coq Require Import List ZArith Permutation Sorted. Import ListNotations. Open Scope Z_scope.\n"
 
+_used = []   # imports of the blocks of the file being written (a Properties file requires only what its blocks use,
+             # so that e.g. a refused pool translator does not break C01 / C02)
+
 def block(prefix, part, items, comment):
     imports, path = MODULES[part]
+    for m in imports.split():
+        m = m[len("Verif."):] if m.startswith("Verif.") else m
+        if m not in _used:
+            _used.append(m)
     L = lemmas(path)
     out = ["(* ---- %s ---- *)" % comment, "Module %s_%s." % (prefix.capitalize(), part), "Import %s." % imports, ""]
     for (lemma, name, doc) in items:
@@ -69,7 +76,9 @@ def block(prefix, part, items, comment):
     return "\n".join(out)
 
 def write(pid, header, blocks):
-    text = "(* %s\n   GENERATED by lib/mkprops.py from the proved component lemmas — statements only. *)\n" % header + REQUIRES + "\n" + "\n".join(blocks)
+    req = "From Verif Require %s.\nFrom Coq Require Import List ZArith Permutation Sorted. Import ListNotations. Open Scope Z_scope.\n" % " ".join(_used)
+    del _used[:]
+    text = "(* %s\n   GENERATED by lib/mkprops.py from the proved component lemmas — statements only. *)\n" % header + req + "\n" + "\n".join(blocks)
     open(os.path.join(COQ, "Properties", pid + ".v"), "w").write(text)
     print(pid, "written")
 
